@@ -1837,10 +1837,47 @@ pub(crate) fn stub_try_parse_hex(source: &str) -> Option<NumericParserResult> {
     any_numeric_result(source, true)
 }
 
+/// The answers of the two numeric parsers are drawn by the harness BEFORE the call (any outcome within their
+/// contract), so that the reference decision below does not depend on which parser the code chose to consult.
+fn pre_numeric_result(which_hex: bool) -> Option<NumericParserResult> {
+    let (some, len, ty, err) = unsafe { if which_hex { HEX_RES } else { DEC_RES } };
+    if !some {
+        return None;
+    }
+    let tt = if ty == TokenType::IntegerLiteral as u16 { TokenType::IntegerLiteral } else if ty == TokenType::FloatLiteral as u16 { TokenType::FloatLiteral } else { TokenType::FloatExponentLiteral };
+    Some(NumericParserResult {
+        token: (tt, if tt == TokenType::IntegerLiteral { Payload::Integer(len as u64) } else { Payload::Float(len as f64) }),
+        length: NonZeroUsize::new(len).unwrap(),
+        error: if err { Some(ErrorKind::InvalidNumericLiteral) } else { None },
+    })
+}
+pub(crate) fn pre_try_parse_decimal(_source: &str, _i: bool, _f: bool) -> Option<NumericParserResult> {
+    pre_numeric_result(false)
+}
+pub(crate) fn pre_try_parse_hex(_source: &str) -> Option<NumericParserResult> {
+    pre_numeric_result(true)
+}
+fn draw_numeric_result(max: usize, force_some: bool) -> (bool, usize, u16, bool) {
+    let some: bool = kani::any::<bool>() || force_some;
+    let len: usize = kani::any();
+    let ty: u8 = kani::any();
+    let err: bool = kani::any();
+    if !some || max == 0 {
+        return (false, 0, 0, false);
+    }
+    kani::assume(len >= 1 && len <= max);
+    let tt = match ty % 3 {
+        0 => TokenType::IntegerLiteral,
+        1 => TokenType::FloatLiteral,
+        _ => TokenType::FloatExponentLiteral,
+    };
+    (true, len, tt as u16, err)
+}
+
 lx_harness! {
     #[kani::unwind(6)]
-    #[kani::stub(try_parse_decimal, stub_try_parse_decimal)]
-    #[kani::stub(try_parse_hex_integer, stub_try_parse_hex)]
+    #[kani::stub(try_parse_decimal, pre_try_parse_decimal)]
+    #[kani::stub(try_parse_hex_integer, pre_try_parse_hex)]
     fn lx_numeric_literal() {
         let t = Txt::<4, 20>::any(PFX, &[]);
         kani::assume(t.n >= 1);
@@ -1849,6 +1886,20 @@ lx_harness! {
             kani::assume(t.ch[0] == '.' && t.n >= 2 && t.ch[1].is_ascii_digit());
         } else {
             kani::assume(t.ch[0].is_ascii_digit());
+        }
+        // numeric text is ASCII: digits, hex letters, '.', exponent sign
+        let mut max = 0usize;
+        let mut i = 0;
+        while i < 4 {
+            if i < t.n && max == i && (t.ch[i].is_ascii_hexdigit() || matches!(t.ch[i], '.' | '+' | '-')) {
+                max += 1;
+            }
+            i += 1;
+        }
+        // contract: the decimal parser always recognises ".<digit>" (the only way the lexer calls it on a dot)
+        unsafe {
+            DEC_RES = draw_numeric_result(max, seen_dot);
+            HEX_RES = draw_numeric_result(max, false);
         }
         let mut lx = setup(&t, &[LexerMode::Default]);
         let pre = snapshot(&lx, &t);
